@@ -24,6 +24,8 @@
 //!   (case cmap xCMAP xTEXT)                          get_font_encoding (ToUnicode) + Document::decode_text
 //!   (case textstr xBYTES)                            decode_text_string
 //!   (case load xFILE) | (case incload xFILE)         Document::load_mem | IncrementalDocument::load_from
+//!   (case loadm xFILE) | (case incloadm xFILE)       the same two entry points; the model runner answers these with c01's
+//!                                                    Model/LoaderExt.v (load_plain) instead of `any` (Prev-chain shapes)
 //!   (case loadtext xFILE)                            Document::load_mem, then extract_text + extract_text_chunks of every page
 //! Result:  (r <class> (m MAXREQ LEN))   class = (ok N) | (err) | (panic) | (timeout) | (abort alloc|stack|sigN)
 //!   N = size of the result (decoded bytes, operations, objects, xref entries, characters).
@@ -249,7 +251,7 @@ fn run_case(x: &Sx, go: &dyn Fn()) -> (Out, usize) {
             go();
             (match lopdf::decode_text_string(&o) { Ok(s) => Out::Ok(s.chars().count()), Err(_) => Out::Err }, l)
         }
-        "load" => {
+        "load" | "loadm" => {
             let b = need!(bytes(1));
             let l = b.len();
             go();
@@ -280,7 +282,7 @@ fn run_case(x: &Sx, go: &dyn Fn()) -> (Out, usize) {
             }
             (if failed { Out::Err } else { Out::Ok(n) }, l)
         }
-        "incload" => {
+        "incload" | "incloadm" => {
             let b = need!(bytes(1));
             let l = b.len();
             go();
@@ -402,7 +404,7 @@ fn spawn_kid() -> Kid {
 fn alloc_bound(kind: &str, l: usize) -> usize {
     let (k, c): (usize, usize) = match kind {
         // deflate expands by at most 1032:1, Vec doubling by 2
-        "stream" | "load" | "loadtext" | "incload" | "objstm" | "xrefstm" => (4096, (1 << 20) + (1 << 24)),
+        "stream" | "load" | "loadm" | "loadtext" | "incload" | "incloadm" | "objstm" | "xrefstm" => (4096, (1 << 20) + (1 << 24)),
         "pred" => (4096, 1 << 20),
         _ => (64, 1 << 20),
     };
